@@ -116,5 +116,43 @@ func doCyclic(id string, k int) string {
 			intact = false
 		}
 	}
-	return id + " out=" + strings.Join(outs, ";") + " frame=" + b01(intact)
+	// the caller repairs the object in place (takes the self-reference out) and evaluates again: the diagnostic now describes the
+	// repaired value, exactly as for a newly built object with the same content
+	repaired := true
+	if k == 0 || k == 3 {
+		func() {
+			defer func() {
+				if r := recover(); r != nil {
+					repaired = false
+				}
+			}()
+			obj, _ := cyclicObject(k)
+			ev, err := parser.NewEvaluator("child eq 1")
+			if err != nil {
+				return
+			}
+			ev.Process(obj)
+			_ = textHash(ev.LastDebugErr())
+			// repair in place
+			if k == 0 {
+				delete(obj["child"].(map[string]interface{}), "parent")
+			} else {
+				obj["child"] = map[string]interface{}{"k": 1}
+			}
+			ev.Process(obj)
+			got := textHash(ev.LastDebugErr())
+			var fresh map[string]interface{}
+			if k == 0 {
+				fresh = map[string]interface{}{"k": 1, "child": map[string]interface{}{}}
+			} else {
+				fresh = map[string]interface{}{"k": 1, "child": map[string]interface{}{"k": 1}}
+			}
+			ev2, _ := parser.NewEvaluator("child eq 1")
+			ev2.Process(fresh)
+			if got != textHash(ev2.LastDebugErr()) {
+				repaired = false
+			}
+		}()
+	}
+	return id + " out=" + strings.Join(outs, ";") + " frame=" + b01(intact) + " repaired=" + b01(repaired)
 }
